@@ -88,3 +88,105 @@ def flw7_catalogue_lookups_on_query_path(ctx):
                norm_callee(t.func).endswith('HashMap::get')]
     ctx.ok('FLW-7', 'scope', '%d storage bodies on the query path, %d indexing lookups, %d get() lookups'
            % (len(scope), n, len(lookups)))
+
+
+# ------------------------------------------------------------------------------------ ORD-17
+def ord17_loaded_mark_after_handles(ctx):
+    """A sub-partition file is marked "loaded" only after the handles of all its columns are in the
+    partition's column map.  `Partition::get_cols` treats "file loaded + no handle for this name" as
+    "the partition does not contain this column" and installs an *empty* handle; a mark that becomes
+    visible before the handles (set while the file is still being read) lets a second query - or a
+    compaction - that asks for another column of the same file classify a stored column as absent,
+    and it stays NULL until the next restart."""
+    from mirlib.cfg import CFG
+    ctx.rule('ORD-17', 'a partition file is marked as loaded only after the handles of its columns are '
+                       'installed: the mark is not reachable from the routine that reads the file, and in '
+                       'the loader it follows the loop that installs the handles', floor=3)
+    P = ctx.P
+    roots = P.find('MetaStore::mark_subpartition_as_loaded')
+    ctx.require(roots, 'ORD-17: MetaStore::mark_subpartition_as_loaded not found')
+    root_names = {r.name for r in roots}
+    # bodies from which the mark is reachable (synchronous edges)
+    reaching = set()
+    for b in P.fn_bodies():
+        if b.crate != 'locustdb':
+            continue
+        if root_names & set(P.reachable_bodies([b])):
+            reaching.add(b.name)
+    # (1) the file reader never marks
+    readers = [b for b in P.fn_bodies() if b.crate == 'locustdb' and
+               re.search(r'(^|::|>::)load_column$', b.name) and '{closure' not in b.name]
+    ctx.require(readers, 'ORD-17: no load_column body found')
+    for b in sorted(readers, key=lambda x: x.name):
+        ctx.check('ORD-17', '%s|reader-does-not-mark-loaded' % b.name, b.name not in reaching,
+                  'the routine that reads a partition file %s the "loaded" mark' %
+                  ('cannot reach' if b.name not in reaching else
+                   'reaches (sets, before its caller has installed the column handles,)'), None)
+
+    def reaches_mark(F, t):
+        if not t.func:
+            return False
+        return any(c.name in reaching or c.name in root_names for c in P.resolve(t.func, F.crate))
+
+    # (2) in every body that installs handles, the mark follows the installing loop
+    n_loaders = 0
+    covered = set()
+    for F in P.fn_bodies():
+        if F.crate != 'locustdb' or F.name not in reaching or F.name in root_names:
+            continue
+        sites = [(blk, t) for (blk, t) in F.calls() if not blk.cleanup and reaches_mark(F, t)]
+        installs = [(blk, t) for (blk, t) in F.calls() if not blk.cleanup and
+                    norm_callee(t.func or '').endswith('ColumnHandle::set_resident')]
+        if not installs:
+            continue
+        n_loaders += 1
+        covered.add(F.name)
+        cfg = CFG(F)
+        loops = {h: cfg.natural_loop(h) for h in cfg.loop_headers()}
+        inner = []
+        for (ib, _t) in installs:
+            hs = [h for h, lp in loops.items() if ib.id in lp]
+            if hs:
+                inner.append(min(hs, key=lambda h: len(loops[h])))
+        short = re.sub(r'^.*?(\w+::\w+)$', r'\1', F.name)
+        for k, (blk, t) in enumerate(sites):
+            ok = bool(inner) and all(blk.id not in loops[h] and cfg.dominates(h, blk.id) for h in inner) and \
+                not any(cfg.can_reach(blk.id, ib.id) and not any(blk.id in loops[h] or True for h in [])
+                        and not _same_outer_iteration(cfg, loops, blk.id, ib.id) for (ib, _t) in installs)
+            ctx.check('ORD-17', '%s|mark-after-install-loop' % short, ok,
+                      'the call that marks the file as loaded %s the loop that installs the column handles '
+                      '(ColumnHandle::set_resident)' % ('follows' if ok else 'is not dominated by / lies inside'),
+                      where_(t))
+    ctx.require(n_loaders >= 1, 'ORD-17: no body both installs column handles and marks the file as loaded')
+    # (3) who may mark: every call path to the mark passes through a loader.  R = bodies that reach
+    # the mark without passing a loader; an entry point (no resolved caller) in R marks a file as
+    # loaded without installing anything
+    R = set()
+    for b in P.fn_bodies():
+        if b.crate != 'locustdb' or b.name in covered or b.name in root_names:
+            continue
+        if root_names & set(P.reachable_bodies([b], stop=covered)):
+            R.add(b.name)
+    callers = P.callers()
+    for name in sorted(R):
+        if '{closure' in name:
+            continue
+        cs = {re.sub(r'::\{closure.*$', '', c) for (c, kind, _b) in callers.get(name, [])}
+        ctx.check('ORD-17', '%s|marks-only-below-a-loader' % name, bool(cs) and cs <= (R | covered),
+                  'reaches the "loaded" mark without installing handles itself; called from %s'
+                  % (sorted(cs) or 'nowhere (an entry point that marks files as loaded)'), None)
+
+
+def _same_outer_iteration(cfg, loops, a, b):
+    """True when block b is reachable from a only through the back edge of a loop that contains both
+    (the next iteration of an enclosing retry loop): not an ordering problem within one load."""
+    for h, lp in loops.items():
+        if a in lp and b in lp:
+            # reachable without passing the header again?
+            if not cfg.can_reach(a, b, avoid={h}):
+                return True
+    return False
+
+
+def where_(t):
+    return t.span.short() if getattr(t, 'span', None) else None
